@@ -1,20 +1,20 @@
 #!/bin/bash
-# For every seeded change: apply it to a scratch worktree of /repo's HEAD (outside /repo and /verif),
-# run all checks there, and record which properties' checks report a violation.
-# Output: /verif/seeded/<id>/detected_by.txt (one property id per line)
+# usage: seed_matrix.sh [binary] — for every seeded change: apply it to a scratch worktree of /repo's HEAD (outside /repo and
+# /verif), run all checks there, and record which properties' checks report a violation in seeded/<id>/detected_by.txt.
+# Four seeds at a time.
+export BIN=${1:-/verif/bin/rqcheck}
 export GOFLAGS=-mod=mod GOPROXY=off GOSUMDB=off GOTOOLCHAIN=local PATH=/opt/veriftools/go1.26.8/bin:$PATH; unset GOWORK
-W=/tmp/seedmatrix
-git -C /repo worktree remove --force $W 2>/dev/null; rm -rf $W
-git -C /repo worktree add -q --detach $W HEAD
-mkdir -p /tmp/vtmp2 && cp /verif/known_findings.json /tmp/vtmp2/
-mkdir -p /tmp/vtmp2/checker/testdata && ln -sfn /verif/checker/testdata/fixtures /tmp/vtmp2/checker/testdata/fixtures
-for d in /verif/seeded/C*/; do
-  id=$(basename $d)
-  [ -n "$1" ] && [ "$1" != "$id" ] && continue
-  git -C $W reset -q --hard && git -C $W clean -qfd
-  if ! git -C $W apply $d/patch.diff 2>/dev/null && ! git -C $W apply --3way $d/patch.diff >/dev/null 2>&1; then echo "$id PATCH-DOES-NOT-APPLY"; continue; fi
-  git -C $W reset -q
-  /verif/bin/rqcheck -prop all -tier quick -repo $W -verif /tmp/vtmp2 2>&1 | grep -E '^C[0-9]+: ' | grep -v ' 0 failing' | cut -d: -f1 > $d/detected_by.txt
-  echo "$id detected_by: $(tr '\n' ' ' < $d/detected_by.txt)"
-done
-git -C /repo worktree remove --force $W; rm -rf /tmp/vtmp2
+one() {
+  id=$1; d=/verif/seeded/$id; W=/tmp/seedm_$id; V=/tmp/seedv_$id
+  git -C /repo worktree remove --force $W 2>/dev/null; rm -rf $W $V
+  git -C /repo worktree add -q --detach $W HEAD
+  mkdir -p $V/checker/testdata && cp /verif/known_findings.json $V/ && ln -sfn /verif/checker/testdata/fixtures $V/checker/testdata/fixtures
+  if ! git -C $W apply $d/patch.diff 2>/dev/null && ! git -C $W apply --3way $d/patch.diff >/dev/null 2>&1; then echo "$id PATCH-DOES-NOT-APPLY"; else
+    git -C $W reset -q
+    $BIN -prop all -tier quick -repo $W -verif $V 2>&1 | grep -E '^C[0-9]+: ' | grep -v ' 0 failing' | cut -d: -f1 > $d/detected_by.txt
+    echo "$id detected_by: $(tr '\n' ' ' < $d/detected_by.txt)"
+  fi
+  git -C /repo worktree remove --force $W 2>/dev/null; rm -rf $W $V
+}
+export -f one
+ls /verif/seeded | grep '^C' | xargs -P 4 -I{} bash -c 'one {}'
